@@ -233,6 +233,8 @@ class Program:
         from collections import Counter as _Counter
         from . import normalize as _normalize
         cnt = _Counter()
+        imported = set()
+        sigs: dict = {}
         for dirpath, dirnames, filenames in os.walk(pkg_dir):
             dirnames[:] = sorted(d for d in dirnames if d != "__pycache__")
             for fn in sorted(filenames):
@@ -244,7 +246,21 @@ class Program:
                         with open(path, "r", encoding="utf-8") as fh:
                             txt = fh.read()
                     cnt.update(_re.findall(r"^\s*def\s+(\w+)\s*\(", txt, flags=_re.M))
+                    try:
+                        for fn_ in ast.walk(ast.parse(txt)):
+                            if isinstance(fn_, (ast.FunctionDef, ast.AsyncFunctionDef)):
+                                a_ = fn_.args
+                                ps = [x.arg for x in a_.posonlyargs + a_.args]
+                                deco = {getattr(d, "id", getattr(d, "attr", "")) for d in fn_.decorator_list}
+                                sigs.setdefault(fn_.name, []).append(
+                                    (ps, bool(a_.vararg), bool(a_.posonlyargs), "staticmethod" in deco, "classmethod" in deco))
+                    except SyntaxError:
+                        pass
+                    for line in _re.findall(r"^\s*from\s+\S+\s+import\s+\(?([^#\n]*(?:\n[^)\n]*)*)", txt, flags=_re.M):
+                        imported.update(_re.findall(r"\w+", line))
         _normalize.MULTI_DEF = frozenset(n for n, c in cnt.items() if c > 1)
+        _normalize.IMPORTED_NAMES = frozenset(imported)
+        _normalize.SIGNATURES = {n: v[0] for n, v in sigs.items() if len(v) == 1}
         for dirpath, dirnames, filenames in os.walk(pkg_dir):
             dirnames[:] = sorted(d for d in dirnames if d != "__pycache__")
             for fn in sorted(filenames):
@@ -588,7 +604,8 @@ def _parse(path: str, rel: str, override: Optional[str]):
     else:
         st = os.stat(path)
         from . import normalize as _nz
-        key = (path, st.st_mtime_ns, st.st_size, hash(getattr(_nz, "MULTI_DEF", None)))
+        key = (path, st.st_mtime_ns, st.st_size, hash(getattr(_nz, "MULTI_DEF", None)),
+               hash(tuple(sorted((k, tuple(v[0])) for k, v in getattr(_nz, "SIGNATURES", {}).items()))))
         hit = _PARSE_CACHE.get(key)
         if hit is not None:
             return hit
